@@ -989,6 +989,10 @@ func (d *Data) sendJSONValuesInRange(w http.ResponseWriter, r *http.Request, ctx
 
 		return nil
 	})
+	if err != nil {
+		// leave a streamed response unterminated rather than closing it as if it were complete
+		return
+	}
 	switch {
 	case tarOut:
 		tw.Close()
